@@ -13,7 +13,7 @@ Trace == ndJsonDeserialize(IOEnv.TRACE_FILE)
 
 VARIABLES l,     \* next trace line
           nn     \* number of participants of the current object
-tvars == <<t, focus, acc, signed, bad, delivered, hist, l, nn>>
+tvars == <<t, msg, focus, acc, signed, bad, delivered, hist, l, nn>>
 
 IsEvent(e) == l <= Len(Trace) /\ Trace[l].ev = e /\ l' = l + 1
 
@@ -28,7 +28,7 @@ StateMatches ==
 
 TInit ==
   /\ l = 1 /\ nn = 0
-  /\ t = 1 /\ focus = 0
+  /\ t = 1 /\ focus = 0 /\ msg = "text"
   /\ acc = [p \in Idx |-> {}] /\ signed = [p \in Idx |-> FALSE] /\ bad = [p \in Idx |-> 0]
   /\ delivered = [p \in Idx |-> {}] /\ hist = <<>>
 
@@ -36,7 +36,7 @@ TNew ==
   /\ IsEvent("new")
   /\ LET a == Trace[l].args IN
      /\ a.n <= N /\ a.p \in 0..a.n-1
-     /\ nn' = a.n /\ t' = a.t /\ focus' = a.p
+     /\ nn' = a.n /\ t' = a.t /\ focus' = a.p /\ msg' = msg
   /\ acc' = [p \in Idx |-> {}] /\ signed' = [p \in Idx |-> FALSE] /\ bad' = [p \in Idx |-> 0]
   /\ delivered' = [p \in Idx |-> {}] /\ hist' = hist
   /\ StateMatches
@@ -44,7 +44,7 @@ TNew ==
 TSign ==
   /\ IsEvent("PartialSig") /\ Trace[l].ret = "ok"
   /\ \/ Sign(focus)
-     \/ signed[focus] /\ UNCHANGED <<t, focus, acc, signed, bad, delivered, hist>>
+     \/ signed[focus] /\ UNCHANGED <<t, msg, focus, acc, signed, bad, delivered, hist>>
   /\ nn' = nn
   /\ StateMatches
 
@@ -57,14 +57,14 @@ TRecv ==
           /\ RecvValid(focus, i)
      ELSE \* rejected: must not have been a fresh valid partial; the object is unchanged
           /\ ~(e.args.kind = "valid" /\ i \in 0..nn-1 /\ i \notin acc[focus])
-          /\ UNCHANGED <<t, focus, acc, signed, bad, delivered, hist>>
+          /\ UNCHANGED <<t, msg, focus, acc, signed, bad, delivered, hist>>
   /\ nn' = nn
   /\ StateMatches
 
 TSignature ==
   /\ IsEvent("Signature")
   /\ (Trace[l].ret = "ok") <=> Enough(focus)
-  /\ UNCHANGED <<t, focus, acc, signed, bad, delivered, hist, nn>>
+  /\ UNCHANGED <<t, msg, focus, acc, signed, bad, delivered, hist, nn>>
   /\ StateMatches
 
 TNext == TNew \/ TSign \/ TRecv \/ TSignature
